@@ -302,9 +302,27 @@ func runC05(c *Ctx) {
 		"Not decided: that the mutators jointly preserve the invariant over all histories (an inductive argument), quiescent-point claims."
 	r.Rule("who-writes", "table and link fields are written only by the table mutators", 9)
 	r.Rule("locked", "table mutations hold the session mutex for writing", 8)
-	r.Rule("pairing", "creation and deletion keep index, link and list together", 9)
+	r.Rule("pairing", "creation and deletion keep index, link and list together", 10)
 	r.Rule("online", "MAC entry online flag follows its hosts", 2)
 	runC05Holders(c)
+	// a MAC entry leaves the table only when no host refers to it any more: every call of MACTable.delete, wherever it
+	// is, runs under len(entry.HostList) == 0 (an entry that is merely offline still owns its hosts)
+	for _, fn := range c.P.LibFunctions() {
+		kgd := core.NewKeyGen()
+		for _, site := range callsIn(fn, nameIs("delete")) {
+			if !strings.HasSuffix(core.CalleeName(site), "MACTable).delete") {
+				continue
+			}
+			ins := site.(ssa.Instruction)
+			st := core.Proved
+			if !hasGuard(guardsOf(ins), `^\(len\(.*HostList\)==0\)$`) {
+				st = core.Violated
+			}
+			key := strings.TrimSuffix(kgd.Key("pairing MAC entry removed only when it has no host, in "+core.FuncName(fn)), "#0")
+			r.Add(core.Obligation{Rule: "pairing", Key: key, Func: core.FuncName(fn), Pos: c.P.Pos(core.PosOf(ins)), Status: st,
+				Basis: "MACTable.delete under len(HostList) == 0", Detail: "the MAC entry is removed from the table while hosts may still refer to it (" + guardTexts(guardsOf(ins)) + "): those hosts stay in the host index but belong to no entry of the MAC table"})
+		}
+	}
 
 	lib := c.P.LibFunctions()
 	an := locks.Analyse(c.P, lib, isConstructor)
@@ -800,6 +818,20 @@ func runC06(c *Ctx) {
 			r.Add(core.Obligation{Rule: "frame-marked", Key: fmt.Sprintf("frame-marked Parse transition site %d", k+1), Func: core.FuncName(parse), Pos: c.P.Pos(core.PosOf(ins)), Status: st,
 				Basis: "frame.flags = markOnlineTransition() follows the transition on every path", Detail: "after onlineTransition the frame is not marked with markOnlineTransition(): notify will not emit the offline notifications of the superseded addresses before the online one"})
 		}
+	}
+	// an address that ages out gets its offline notification: purge hands makeOffline exactly the online hosts whose own
+	// LastSeen passed the offline deadline (the MAC entry's LastSeen is refreshed by every address of the station)
+	r.Rule("aged-out", "purge selects for the offline notification by the host's own LastSeen", 1)
+	if pg := c.A.Method("", "Session", "purge"); pg != nil {
+		const e = `\(packet\.Session\)\.GetHosts\(local\(h\)\)\[\(φ\+1\)\]`
+		core.EachInstr(pg, func(i ssa.Instruction) {
+			call, ok := isBuiltinCall(i, "append")
+			if !ok || call.Type().String() != "[]*github.com/irai/packet.Host" {
+				return
+			}
+			requireGuards(c, "aged-out", "purge offline list", i, []guardReq{{"host is online", `^` + e + `\.Online$`},
+				{"the host itself was not seen since now - OfflineDeadline", `^\(time\.Time\)\.Before\(` + e + `\.LastSeen,\(time\.Time\)\.Add\(local\(now\),\(local\(h\)\.OfflineDeadline-1\)\)\)$`}})
+		})
 	}
 	// Notify finds the host of a DHCP frame (no source address, frame.Host == nil) through MACEntry.IP4Offer: DHCPv4Update
 	// records the address it has just made current there, on every path, so that the notification that follows is
